@@ -329,6 +329,7 @@ fn main() {
             let mut src = String::new();
             std::io::stdin().read_to_string(&mut src).unwrap();
             for chunk in src.split("\n=====\n") {
+                let chunk = &format!("{}\n", chunk.trim_end_matches('\n'));
                 match vharness::astdump::parse_module(chunk) {
                     Ok(ast) => println!("AST {}", serde_json::to_string(&ast).unwrap()),
                     Err(e) => println!("PARSE-ERR {:?}", e.iter().map(|x| format!("{}:{}", x.line, x.message)).collect::<Vec<_>>()),
